@@ -144,9 +144,20 @@ def world_str_structured(a, b):
     return " ".join(parts)
 
 
-def run2(prog, key, a, b, overrides=None, structured=False):
+def witness_worlds(values=(0, 1, 2)):
+    """joint small valuations of all six numeric atoms x a few list valuations: each stands for its class of joint
+    orderings (fields compared across each other or with literals). Witness-only: see Policy.witness."""
+    lists = [((), ()), ((), (0,)), ((0,), ()), ((0,), (0,)), ((0,), (1,)), ((1,), (0,))]
+    for va in itertools.product(values, repeat=3):
+        for vb in itertools.product(values, repeat=3):
+            for la, lb in lists:
+                yield (dict(zip(FIELDS, va)), la, ()), (dict(zip(FIELDS, vb)), lb, ())
+
+
+def run2(prog, key, a, b, overrides=None, structured=False, witness=False, retry_structured=True):
     """interpret `key(&a, &b)` on two abstract versions"""
     pol = Policy()
+    pol.witness = witness
     mk = mk_version
     if structured:
         mk = mk_version_structured
@@ -159,6 +170,10 @@ def run2(prog, key, a, b, overrides=None, structured=False):
     except Panic as p:
         return "panic", p, it
     except Inconclusive as e:
+        if not structured and retry_structured:
+            # code that walks the identifier lists instead of comparing them whole: the same world with the lists
+            # as real lists of numeric identifier tokens (the list valuations of the worlds are such lists)
+            return run2(prog, key, a, b, overrides=overrides, structured=True, witness=witness, retry_structured=False)
         return "inconclusive", e, it
 
 
